@@ -407,7 +407,7 @@ func handle(line string) (res string) {
 			return "unsupported"
 		}
 		return "ok " + s
-	case strings.HasPrefix(op, "lint.wire") || strings.HasPrefix(op, "lint.rt"):
+	case op == "lint.wire" || op == "lint.kernel":
 		return handleWire(op, args)
 	}
 	return "bad-op"
@@ -415,7 +415,12 @@ func handle(line string) (res string) {
 
 func main() {
 	in := bufio.NewReaderSize(os.Stdin, 1<<20)
-	out := bufio.NewWriterSize(os.Stdout, 1<<20)
+	realOut := os.Stdout
+	// the kernel prints progress with fmt.Printf: keep it away from the result stream
+	if devnull, err := os.OpenFile(os.DevNull, os.O_WRONLY, 0); err == nil {
+		os.Stdout = devnull
+	}
+	out := bufio.NewWriterSize(realOut, 1<<20)
 	defer out.Flush()
 	for {
 		line, err := in.ReadString('\n')
